@@ -45,7 +45,7 @@ static const uint8_t BASE64_ENCODING_TABLE[] = "ABCDEFGHIJKLMNOPQRSTUVWXYZabcdef
  * per row.  Reformatting is turned off to make sure this stays as 16 bytes per line. */
 /* clang-format off */
 static const uint8_t BASE64_DECODING_TABLE[256] = {
-    64,   0xDD, 0xDD, 0xDD, 0xDD, 0xDD, 0xDD, 0xDD, 0xDD, 0xDD, 0xDD, 0xDD, 0xDD, 0xDD, 0xDD, 0xDD,
+    0xDD, 0xDD, 0xDD, 0xDD, 0xDD, 0xDD, 0xDD, 0xDD, 0xDD, 0xDD, 0xDD, 0xDD, 0xDD, 0xDD, 0xDD, 0xDD,
     0xDD, 0xDD, 0xDD, 0xDD, 0xDD, 0xDD, 0xDD, 0xDD, 0xDD, 0xDD, 0xDD, 0xDD, 0xDD, 0xDD, 0xDD, 0xDD,
     0xDD, 0xDD, 0xDD, 0xDD, 0xDD, 0xDD, 0xDD, 0xDD, 0xDD, 0xDD, 0xDD, 62,   0xDD, 0xDD, 0xDD, 63,
     52,   53,   54,   55,   56,   57,   58,   59,   60,   61,   0xDD, 0xDD, 0xDD, 255,  0xDD, 0xDD,
@@ -406,7 +406,13 @@ int aws_base64_decode(const struct aws_byte_cursor *AWS_RESTRICT to_decode, stru
             output->buffer[buffer_index++] = (uint8_t)(((value2 << 4) & 0xF0) | ((value3 >> 2) & 0x0F));
             if (value4 != BASE64_SENTINEL_VALUE) {
                 output->buffer[buffer_index] = (uint8_t)((value3 & 0x03) << 6 | value4);
+            } else if (value3 & 0x03) {
+                /* one padding char: the unused low bits of the last digit must be zero */
+                return aws_raise_error(AWS_ERROR_INVALID_BASE64_STR);
             }
+        } else if (value4 != BASE64_SENTINEL_VALUE || (value2 & 0x0F)) {
+            /* "xx=x" is malformed; with two padding chars the unused low bits must be zero */
+            return aws_raise_error(AWS_ERROR_INVALID_BASE64_STR);
         }
     }
     output->len = decoded_length;
